@@ -308,3 +308,144 @@ Proof.
   - rewrite placed_snoc, existsb_snoc, FL, EF. cbn [orb]. exact FA.
   - intros k b Hb. rewrite map_app. apply in_or_app. left. exact (SP k b Hb).
 Qed.
+
+Lemma f_any_nonaddr bs c s : needs_addr s = false -> f_any bs (c, s) = false.
+Proof.
+  unfold f_any, f_undet, f_nf, f_ext, f_off, needs_addr, operand_of. cbn [fst snd].
+  destruct (s_nucleus s) as [i|[a0|o|n|t| |l]]; intros H; try discriminate; destruct c as [[? ?]|]; reflexivity.
+Qed.
+
+Lemma I2_orig bs pre s st a :
+  I2 bs pre st -> p2_cur st = None -> final None pre = None ->
+  s_nucleus s = NDir (DOrig a) -> 0 <= a < 65536 ->
+  I2 bs (pre ++ [s]) (mkP2 (p2_map st) (Some (a, mkOB a [] (stmt_span s)))).
+Proof.
+  intros [CU MI PE BL CE NV FL SP] EC EF EN Ha.
+  assert (RR : ref_run bs (pre ++ [s]) = (fst (ref_run bs pre), [])).
+  { rewrite ref_run_snoc. unfold ref_step. cbn [fst snd]. rewrite EN. reflexivity. }
+  assert (FN : final None (pre ++ [s]) = Some (a, a)).
+  { rewrite final_snoc. unfold next. rewrite EN. reflexivity. }
+  assert (NE : is_end s = false) by (unfold is_end; rewrite EN; reflexivity).
+  constructor; cbn [p2_cur p2_map].
+  - unfold cur2_rel. rewrite FN, RR. cbn [ob_start ob_words ob_span snd]. repeat split; try lia.
+    { unfold len; cbn; lia. } rewrite map_app. apply in_or_app. right. left. reflexivity.
+  - exact MI.
+  - rewrite RR. exact PE.
+  - rewrite RR, blocks_snoc, EF, app_nil_r. exact BL.
+  - rewrite RR, FN, placed_snoc, flat_map_app. cbn [fst snd flat_map cells_from]. rewrite EF in CE.
+    unfold cells_of at 2. cbn [fst]. rewrite EF. rewrite !app_nil_r in *. exact CE.
+  - rewrite blocks_snoc, EF, app_nil_r. exact NV.
+  - rewrite placed_snoc, existsb_snoc, FL. cbn [orb]. apply f_any_nonaddr. unfold needs_addr. rewrite EN. reflexivity.
+  - intros k b Hb. rewrite map_app. apply in_or_app. left. exact (SP k b Hb).
+Qed.
+
+Lemma overlap_brange_ranges b blk o a :
+  ob_start blk = o -> len (ob_words blk) = a - o ->
+  overlap (brange (strip (ob_start b, b))) (o, a) =
+  (0 <? len (ob_words b)) && (o <? a) && ranges_overlap (rng blk) (rng b).
+Proof.
+  intros E1 E2. unfold overlap, brange, strip, ranges_overlap, rng. cbn [fst snd]. rewrite E1, E2.
+  replace (o + (a - o)) with a by lia.
+  destruct (ob_start b <? ob_start b + len (ob_words b)) eqn:A; destruct (0 <? len (ob_words b)) eqn:B; try lia;
+  destruct (o <? a); destruct (ob_start b <? a); destruct (o <? ob_start b + len (ob_words b)); reflexivity.
+Qed.
+
+(* closing a block: the three outcomes of the `.end` arm *)
+Lemma I2_end bs pre s st lc blk o a :
+  I2 bs pre st -> p2_cur st = Some (lc, blk) -> final None pre = Some (o, a) ->
+  s_nucleus s = NDir DEnd ->
+  match ob_words blk with
+  | [] => I2 bs (pre ++ [s]) (mkP2 (p2_map st) None)
+  | _ =>
+      match find_overlap blk (neighbours blk (p2_map st)) with
+      | AOk None => I2 bs (pre ++ [s]) (mkP2 (bt_insert (ob_start blk) blk (p2_map st)) None)
+      | AOk (Some other) => v_overlap (pre ++ [s]) = true /\
+                            In (ob_span blk) (map stmt_span pre) /\ In (ob_span other) (map stmt_span pre)
+      | AErr _ _ => False
+      | APanic => False
+      end
+  end.
+Proof.
+  intros [CU MI PE BL CE NV FL SP] EC EF EN.
+  unfold cur2_rel in CU. rewrite EC, EF in CU. destruct CU as [U1 [U2 [U3 [U4 [U5 [U6 U7]]]]]].
+  assert (RR : ref_run bs (pre ++ [s]) = (fst (ref_run bs pre) ++ [(o, ob_words blk)], [])).
+  { rewrite ref_run_snoc. unfold ref_step. cbn [fst snd]. rewrite EN, EF, U3. reflexivity. }
+  assert (FN : final None (pre ++ [s]) = None).
+  { rewrite final_snoc. unfold next. rewrite EN. reflexivity. }
+  assert (IE : is_end s = true) by (unfold is_end; rewrite EN; reflexivity).
+  assert (BS : blocks (pre ++ [s]) = blocks pre ++ [(o, a)]) by (rewrite blocks_snoc, EF, IE; reflexivity).
+  assert (FA : f_any bs (Some (o, a), s) = false) by (apply f_any_nonaddr; unfold needs_addr; rewrite EN; reflexivity).
+  assert (CEL : flat_map bcells (fst (ref_run bs pre) ++ [(o, ob_words blk)]) ++ [] = flat_map (cells_of bs) (placed (pre ++ [s]))).
+  { rewrite placed_snoc, !flat_map_app. cbn [flat_map]. rewrite EF in CE. rewrite <- CE, EF.
+    unfold cells_of, bcells. cbn [fst snd]. unfold stmt_words. rewrite EN, U3. cbn [cells_from]. rewrite !app_nil_r. reflexivity. }
+  assert (common : forall m,
+            map_inv m -> Permutation (map strip m) (filter nonempty (fst (ref_run bs pre) ++ [(o, ob_words blk)])) ->
+            any_pair overlap (blocks pre ++ [(o, a)]) = false ->
+            (forall k b, In (k, b) m -> In (ob_span b) (map stmt_span (pre ++ [s]))) ->
+            I2 bs (pre ++ [s]) (mkP2 m None)).
+  { intros m M1 M2 M3 M4. constructor; cbn [p2_cur p2_map].
+    - unfold cur2_rel. rewrite FN. exact Logic.I.
+    - exact M1.
+    - rewrite RR. exact M2.
+    - rewrite RR, BS. cbn [fst]. rewrite map_app, BL. cbn [map fst snd]. unfold brange. cbn [fst snd]. rewrite U4. do 3 f_equal. lia.
+    - rewrite RR, FN. exact CEL.
+    - rewrite BS. exact M3.
+    - rewrite placed_snoc, existsb_snoc, FL, EF. cbn [orb]. exact FA.
+    - exact M4. }
+  assert (SPm : forall k b, In (k, b) (p2_map st) -> In (ob_span b) (map stmt_span (pre ++ [s]))).
+  { intros k b Hb. rewrite map_app. apply in_or_app. left. exact (SP k b Hb). }
+  destruct (ob_words blk) as [|w ws] eqn:EW.
+  - (* empty block: dropped *)
+    apply common; try assumption.
+    + rewrite filter_app. cbn [filter nonempty snd]. rewrite app_nil_r. exact PE.
+    + rewrite any_pair_snoc, NV. cbn [orb].
+      assert (Eao : a = o) by (unfold len in U4; cbn in U4; lia). rewrite Eao.
+      clear. induction (blocks pre) as [|y l IH]; [reflexivity|]. cbn [existsb]. rewrite IH.
+      unfold overlap. cbn [fst snd]. rewrite Z.ltb_irrefl, andb_false_r. reflexivity.
+  - rewrite <- EW in *.
+    assert (NEW : ob_words blk <> []) by (rewrite EW; discriminate).
+    pose proof (len_pos _ NEW) as LP.
+    assert (Hoa : o < a) by lia.
+    assert (Ha : a <= asm.IO_START) by (destruct U6; lia).
+    assert (BO : block_ok blk) by (split; [exact NEW|]; rewrite U2, U4; split; lia).
+    destruct MI as [S [OK DJ]].
+    pose proof (find_overlap_spec blk (neighbours blk (p2_map st))) as FO.
+    assert (FO' := FO ltac:(rewrite U2; lia) ltac:(rewrite U2, U4; lia)
+                      (fun k b Hb => let H := proj2 (OK k b (neighbours_in blk (p2_map st) S (k, b) Hb)) in conj (proj1 (proj2 H)) (proj2 (proj2 H)))).
+    clear FO. destruct (find_overlap blk (neighbours blk (p2_map st))) as [[other|]|k sp|]; try exact FO'.
+    + (* an overlapping neighbour *)
+      destruct FO' as [[k Hk] OV]. apply (neighbours_in blk _ S) in Hk.
+      destruct (OK k other Hk) as [Ek [NEo _]]. subst k. split; [|split; [exact U7 | exact (SP _ _ Hk)]].
+      unfold v_overlap. rewrite BS, any_pair_snoc. apply orb_true_iff. right.
+      apply existsb_exists. exists (brange (strip (ob_start other, other))). split.
+      * rewrite <- BL. apply in_map.
+        assert (I : In (strip (ob_start other, other)) (map strip (p2_map st))) by (apply in_map; exact Hk).
+        apply (Permutation_in _ PE) in I. apply filter_In in I. exact (proj1 I).
+      * rewrite (overlap_brange_ranges other blk o a U2 U4), OV. pose proof (len_pos _ NEo).
+        destruct (0 <? len (ob_words other)) eqn:A; destruct (o <? a) eqn:B; first [reflexivity | lia].
+    + (* no neighbour overlaps: nothing overlaps *)
+      pose proof (neighbour_check_complete blk (p2_map st) (conj S (conj OK DJ)) BO FO') as NC.
+      destruct (map_inv_insert blk (p2_map st) (conj S (conj OK DJ)) BO NC) as [MI' PI].
+      apply common.
+      * exact MI'.
+      * assert (NEb : nonempty (o, ob_words blk) = true) by (unfold nonempty; cbn [snd]; destruct (ob_words blk); [congruence|reflexivity]).
+        rewrite filter_app. cbn [filter]. rewrite NEb.
+        apply perm_trans with (map strip ((ob_start blk, blk) :: p2_map st)); [apply Permutation_map; exact PI|].
+        cbn [map]. unfold strip at 1. cbn [snd]. rewrite U2.
+        apply perm_trans with ((o, ob_words blk) :: filter nonempty (fst (ref_run bs pre))); [apply perm_skip; exact PE|].
+        apply Permutation_cons_append.
+      * rewrite any_pair_snoc, NV. cbn [orb].
+        destruct (existsb (fun y => overlap y (o, a)) (blocks pre)) eqn:EX; [exfalso|reflexivity].
+        apply existsb_exists in EX. destruct EX as [y [Hy Oy]]. rewrite <- BL in Hy. apply in_map_iff in Hy.
+        destruct Hy as [d [<- Hd]].
+        destruct (nonempty d) eqn:ND.
+        -- assert (I : In d (filter nonempty (fst (ref_run bs pre)))) by (apply filter_In; split; assumption).
+           apply (Permutation_in _ (Permutation_sym PE)) in I. apply in_map_iff in I. destruct I as [[k b] [<- Hb]].
+           destruct (OK k b Hb) as [Ek _]. subst k.
+           rewrite (overlap_brange_ranges b blk o a U2 U4), (NC _ b Hb), andb_false_r in Oy. discriminate.
+        -- unfold nonempty in ND. unfold overlap, brange in Oy. destruct d as [d0 dw]. cbn [fst snd] in *. destruct dw; [|discriminate].
+           unfold len in Oy. cbn in Oy. rewrite Z.add_0_r, Z.ltb_irrefl in Oy. discriminate.
+      * intros k b Hb. apply (Permutation_in _ PI) in Hb. destruct Hb as [Hb|Hb].
+        -- injection Hb as <- <-. rewrite map_app. apply in_or_app. left. exact U7.
+        -- exact (SPm k b Hb).
+Qed.
